@@ -243,6 +243,72 @@ def flagStep (b : Bool) : WRec → Bool
 
 def flagW (recs : List WRec) : Bool := recs.foldl flagStep false
 
+/-! ### the part of `xl/workbook.bin` after the sheet list: BrtExternSheet, BrtName -/
+
+/-- a defined name as BrtName stores it -/
+structure XName where
+  flags : Nat
+  itab : Nat
+  nameUnits : List Nat
+  rgce : Bytes
+  /-- what follows the formula in the record (rgcb, comment, …): not read -/
+  extra : Bytes
+  deriving Repr, DecidableEq
+
+/-- BrtName payload: flags (u32), chKey, itab (u32), name, cce (u32), rgce, rest -/
+def XName.payload (n : XName) : Bytes :=
+  Xlsb.le32 n.flags ++ ([0] ++ (Xlsb.le32 n.itab ++ (Xlsb.wideBytes n.nameUnits ++ (Xlsb.le32 n.rgce.length ++ (n.rgce ++ n.extra)))))
+
+/-- one XTI of BrtExternSheet: (externalLink, firstSheet, lastSheet) as 32-bit patterns -/
+def xtiBytes32 (x : Nat × Nat × Nat) : Bytes := Xlsb.le32 x.1 ++ (Xlsb.le32 x.2.1 ++ Xlsb.le32 x.2.2)
+
+def externPayload (x : List (Nat × Nat × Nat)) : Bytes := Xlsb.le32 x.length ++ x.flatMap xtiBytes32
+
+inductive NRec where
+  | extern (x : List (Nat × Nat × Nat)) (wide : Bool) (lenW : Nat)
+  | name (n : XName) (wide : Bool) (lenW : Nat)
+  /-- a record the second loop does not interpret and that does not end it -/
+  | other (id : Nat) (payload : Bytes) (wide : Bool) (lenW : Nat)
+  deriving Repr, DecidableEq
+
+def NRec.bytes : NRec → Bytes
+  | .extern x w l => Xlsb.frame 0x016A (externPayload x) w l
+  | .name n w l => Xlsb.frame 0x0027 n.payload w l
+  | .other id p w l => Xlsb.frame id p w l
+
+/-- the sheet name an XTI entry stands for (`first sheet` field as `i32`) -/
+def xtiName (sheets : List (Sheet Text × List Char)) (x : Nat × Nat × Nat) : Text :=
+  if x.2.1 = 0xFFFFFFFE then extText "#ThisWorkbook"
+  else if x.2.1 = 0xFFFFFFFF then extText "#InvalidWorkSheet"
+  else if x.2.1 < 0x80000000 then ((sheets[x.2.1]?).map (·.1.name)).getD (extText "#Unknown")
+  else extText "#Unknown"
+
+/-- the state of the second loop that matters: extern-sheet names and the defined names so far -/
+abbrev NSt := List Text × List (Text × Text)
+
+/-- value of the formula decoder `pf` (`parse_formula`, C14) where it succeeds -/
+def pfValue (pf : Bytes → List Text → List (Text × Text) → Res Text) (rg : Bytes) (st : NSt) : Text :=
+  match pf rg st.1 st.2 with
+  | .ok t => t
+  | _ => []
+
+def applyN (pf : Bytes → List Text → List (Text × Text) → Res Text) (sheets : List (Sheet Text × List Char)) (st : NSt) : NRec → NSt
+  | .extern x _ _ => (x.map (xtiName sheets), st.2)
+  | .name n _ _ => (st.1, st.2 ++ [(Biff.decodeUtf16 n.nameUnits, pfValue pf n.rgce st)])
+  | .other _ _ _ _ => st
+
+def NRec.ok (pf : Bytes → List Text → List (Text × Text) → Res Text) (st : NSt) : NRec → Prop
+  | .extern x _ _ => x.length < 4294967296 ∧ (∀ e ∈ x, e.1 < 4294967296 ∧ e.2.1 < 4294967296 ∧ e.2.2 < 4294967296) ∧
+      (externPayload x).length < 268435456
+  | .name n _ _ => n.flags < 4294967296 ∧ n.itab < 4294967296 ∧ n.nameUnits.length < 2147483648 ∧ (∀ u ∈ n.nameUnits, u < 65536) ∧
+      n.payload.length < 268435456 ∧ (pf n.rgce st.1 st.2).isOk = true
+  | .other id p _ _ => id < 16384 ∧ id ≠ 0x016A ∧ id ≠ 0x0027 ∧ isAfterNames id = false ∧ p.length < 268435456
+
+/-- every record is acceptable in the state the records before it produce -/
+def namesOk (pf : Bytes → List Text → List (Text × Text) → Res Text) (sheets : List (Sheet Text × List Char)) : NSt → List NRec → Prop
+  | _, [] => True
+  | st, r :: rs => r.ok pf st ∧ namesOk pf sheets (applyN pf sheets st r) rs
+
 /-! ## XML events -/
 
 /-- a sheet as `xl/workbook.xml` + `xl/_rels/workbook.xml.rels` declare it -/
